@@ -128,4 +128,114 @@ theorem isPathB_reach {E : List Edge} : ∀ (p : List Nat) (a : Nat), isPathB E 
     rw [hl]
     exact ⟨k + 1, pre k _ hk⟩
 
+/-! ### the generated data as one structure; executions as a relation -/
+
+/-- what `tools/callgraph.py` emits for one build configuration of the working tree -/
+structure Graph where
+  numNodes : Nat
+  /-- mangled name of node `i` -/
+  nodeNames : List String
+  /-- call edges (caller, callee) in chunks -/
+  edgeChunks : List (List Edge)
+  entries : List Nat
+  forbidden : List Nat
+  externals : List Nat
+  whitelist : List Nat
+  /-- call edges the extractor left out of `edgeChunks` (stated preconditions) -/
+  excludedEdges : List Edge
+  samplePath : List Nat
+  /-- bit mask of the set claimed to contain everything reachable from the entries -/
+  cert : Nat
+
+/-- the edge list of the generated call graph -/
+def Graph.edges (g : Graph) : List Edge := g.edgeChunks.flatten
+
+/-- a call path of exactly `k` steps along a relation `R` ("`a` calls `b` in some execution") -/
+def PathR (R : Nat → Nat → Prop) : Nat → Nat → Nat → Prop
+  | 0,     a, b => a = b
+  | k + 1, a, c => ∃ b, PathR R k a b ∧ R b c
+
+/-- a call path of some length along `R` -/
+def ReachR (R : Nat → Nat → Prop) (a b : Nat) : Prop := ∃ k, PathR R k a b
+
+theorem pathR_sub {R : Nat → Nat → Prop} {E : List Edge} (h : ∀ a b, R a b → (a, b) ∈ E) :
+    ∀ (k a b : Nat), PathR R k a b → PathN E k a b := by
+  intro k
+  induction k with
+  | zero => intro a b hp; exact hp
+  | succ k ih =>
+    intro a c hp
+    obtain ⟨b, hb, hbc⟩ := hp
+    exact ⟨b, ih a b hb, h b c hbc⟩
+
+/-- the four per-run obligations on the certificate of a generated graph -/
+structure Graph.CertOK (g : Graph) : Prop where
+  entries : ContainsAll g.cert g.entries
+  closed : Closed g.cert g.edges
+  avoids : Avoids g.cert g.forbidden
+  listed : OnlyListed g.cert g.externals g.whitelist
+
+/-- **What C03 says about one generated graph.**  `Calls a b` = "some execution of the library calls `b` from
+`a`".  Hypotheses, both explicit:
+* `hgraph` — the extraction is an over-approximation: every call that can happen is an edge of the graph or one of
+  the edges the extractor left out (`excludedEdges`);  this is the trusted part (tools/callgraph.py, clang);
+* `hpre`   — the stated preconditions: an excluded edge that is not also a normal edge is never executed (no empty
+  `std::function` is invoked, assertions are compiled out, no exception unwinds).
+Conclusion: no call path of any length from a realtime entry reaches a forbidden function (allocator, deallocator,
+lock, exception allocation, stdio, unresolvable call, atomic read-modify-write), and every function without a body
+on such a path is a whitelisted leaf. -/
+def Graph.Safe (g : Graph) : Prop :=
+  ∀ Calls : Nat → Nat → Prop,
+    (∀ a b, Calls a b → (a, b) ∈ g.edges ∨ (a, b) ∈ g.excludedEdges) →
+    (∀ a b, (a, b) ∈ g.excludedEdges → (a, b) ∉ g.edges → ¬ Calls a b) →
+    ∀ e ∈ g.entries, ∀ n, ReachR Calls e n → n ∉ g.forbidden ∧ (n ∈ g.externals → n ∈ g.whitelist)
+
+/-- **Generic theorem**: the four certificate obligations imply `Safe`. -/
+theorem Graph.safe_of_cert (g : Graph) (h : g.CertOK) : g.Safe := by
+  intro Calls hgraph hpre e he n ⟨k, hp⟩
+  have hsub : ∀ a b, Calls a b → (a, b) ∈ g.edges := by
+    intro a b hc
+    cases hgraph a b hc with
+    | inl h1 => exact h1
+    | inr h2 =>
+      apply Classical.byContradiction
+      intro hne
+      exact hpre a b h2 hne hc
+  have hin : inMask g.cert n := closed_contains_pathN h.entries h.closed k e n he (pathR_sub hsub k e n hp)
+  exact ⟨fun hf => h.avoids n hf hin, fun hx => h.listed n hx hin⟩
+
+/-! ### names: tying the node numbers to symbols -/
+
+/-- every name of `req` is the name of a node that is in `set` -/
+def namedAllInB (names : List String) (req : List String) (set : List Nat) : Bool :=
+  req.all fun s => decide (names.idxOf s < names.length) && set.contains (names.idxOf s)
+
+/-- every node whose name is in `req` is in `set` -/
+def namedOnlyInB (names : List String) (req : List String) (set : List Nat) : Bool :=
+  (List.range names.length).all fun i => !req.contains (names.getD i "") || set.contains i
+
+theorem namedAllInB_sound {names req : List String} {set : List Nat} (h : namedAllInB names req set = true) :
+    ∀ s ∈ req, ∃ i, names[i]? = some s ∧ i ∈ set := by
+  intro s hs
+  have := List.all_eq_true.mp h s hs
+  simp only [Bool.and_eq_true, decide_eq_true_eq] at this
+  obtain ⟨hlt, hc⟩ := this
+  refine ⟨names.idxOf s, ?_, by simpa using hc⟩
+  have hmem : s ∈ names := List.idxOf_lt_length_iff.mp hlt
+  simp [List.getElem?_eq_getElem hlt]
+
+theorem namedOnlyInB_sound {names req : List String} {set : List Nat} (h : namedOnlyInB names req set = true) :
+    ∀ i s, names[i]? = some s → s ∈ req → i ∈ set := by
+  intro i s hi hs
+  have hlt : i < names.length := by
+    rcases Nat.lt_or_ge i names.length with h1 | h1
+    · exact h1
+    · simp [List.getElem?_eq_none h1] at hi
+  have := List.all_eq_true.mp h i (List.mem_range.mpr hlt)
+  have hget : names.getD i "" = s := by simp [List.getD, hi]
+  rw [hget] at this
+  have hc : req.contains s = true := by simpa using hs
+  rw [hc] at this
+  simpa using this
+
 end Rtosc.CallGraph
